@@ -19,6 +19,7 @@ func init() {
 			{Name: "two loads of the store in GetCertificate", File: "cert/source.go", Old: "cert, err = getCertificate(store.certstore(), clientHello, strictMatch)\n\t\t\tif cert != nil {", New: "cert, err = getCertificate(store.certstore(), clientHello, strictMatch)\n\t\t\tif len(store.certstore().Certificates) == 0 {\n\t\t\t\treturn nil, ErrNoCertsStored\n\t\t\t}\n\t\t\tif cert != nil {", Expect: "C11.A2"},
 			{Name: "remove the strict test at the end", File: "cert/store.go", Old: "\tif strictMatch {\n\t\treturn nil, nil\n\t}\n\treturn &cs.Certificates[0], nil", New: "\treturn &cs.Certificates[0], nil", Expect: "C11.M1"},
 			{Name: "single-certificate shortcut ignores strict", File: "cert/store.go", Old: "if !strictMatch && (len(cs.Certificates) == 1 || cs.NameToCertificate == nil) {", New: "if len(cs.Certificates) == 1 || cs.NameToCertificate == nil {", Expect: "C11.M1"},
+			{Name: "wildcard candidates built from parent domains", File: "cert/store.go", Old: "\t\tlabels[i] = \"*\"\n\t\tcandidate := strings.Join(labels, \".\")", New: "\t\tcandidate := \"*.\" + strings.Join(labels[i+1:], \".\")", Expect: "C11.M3"},
 			{Name: "look up the server name unlowered", File: "cert/store.go", Old: "name := strings.ToLower(clientHello.ServerName)", New: "name := clientHello.ServerName", Expect: "C11.M2"},
 			{Name: "delete the sleep on the make-certificates error edge", File: "cert/watch.go", Old: "\t\t\tlog.Printf(\"[ERROR] cert: Cannot make certificates: %s\", err)\n\t\t\ttime.Sleep(refresh)\n\t\t\tcontinue", New: "\t\t\tlog.Printf(\"[ERROR] cert: Cannot make certificates: %s\", err)\n\t\t\tcontinue", Expect: "C11.L1"},
 			{Name: "delete the sleep on the load error edge", File: "cert/watch.go", Old: "\t\t\tlog.Printf(\"[ERROR] cert: Cannot load certificates from %s. %s\", path, err)\n\t\t\ttime.Sleep(refresh)\n\t\t\tcontinue", New: "\t\t\tlog.Printf(\"[ERROR] cert: Cannot load certificates from %s. %s\", path, err)\n\t\t\tcontinue", Expect: "C11.L1"},
@@ -36,6 +37,7 @@ func init() {
 func runC11(c *Ctx) {
 	runC11A(c)
 	runC11M(c)
+	runC11M3(c)
 	runLoopPacing(c, "C11.L1", []string{"cert"}, 2)
 	runConsulWatchLoops(c, "C11.L1", []string{"cert"}, 1)
 	runC11L2(c)
